@@ -8,7 +8,7 @@
 (* thread's current call returned in this step, obs.lt = the Lamport time carried  *)
 (* by the broadcast that call queued (local calls; -1 otherwise).                  *)
 (* A code step is a local step or one atomic action of the specification, so a     *)
-(* segment is any number (up to the 6 of one call) of actions of that thread; program *)
+(* segment is any number (at most 14: one call incl. one witness retry) of actions of that thread; program *)
 (* counters and locals are not logged, so the trace spec tracks the SET of model   *)
 (* states consistent with everything observed so far (SS); a line diverges exactly *)
 (* when that set becomes empty.  The monitor sees logged data only.                *)
@@ -38,7 +38,7 @@ ReachK(R, t, k) ==
 ConfSucc(s) ==
   LET t == Line.act.t
       o == Line.obs
-      cands == ReachK({ [s EXCEPT !.dl = <<>>] }, t, IF Line.act.n < 7 THEN Line.act.n ELSE 7)
+      cands == ReachK({ [s EXCEPT !.dl = <<>>] }, t, IF Line.act.n < 14 THEN Line.act.n ELSE 14)
       ok == { x \in cands : /\ x.ec = o.ec /\ x.qc = o.qc /\ x.dl = o.dl
                             /\ o.fin => (CanFin(x, t) /\ (IsLocal(CurOp(x, t)) => x.th[t].lt = o.lt)) } IN
   { IF o.fin THEN Fin(x, t) ELSE x : x \in ok }
